@@ -522,7 +522,11 @@ def main():
         print(out)
         sys.exit(rc)
     fn = spec.get("check", standard_check)
-    sys.exit(fn(a.pid, a.tier, seed))
+    # one run per property at a time: a trial (VERIF_REPO) and a normal run share the
+    # harness binary and coq/gen files of the property
+    with Lock("prop_" + a.pid):
+        rc = fn(a.pid, a.tier, seed)
+    sys.exit(rc)
 
 
 if __name__ == "__main__":
